@@ -135,6 +135,13 @@ def cases(rng, tier):
     for alg in ("HS256", "RS256", "ES256", "EdDSA"):
         for how in ("replace-same-kid", "remove", "append-new"):
             out.append({"op": "keyset_rotation", "alg": alg, "how": how, "kind": "keyset-rotation"})
+    # the key given as a resolver callable: "a different key is used … is refused", whatever key the token itself offers in a jwk header
+    for alg in ("HS256", "RS256", "ES256", "EdDSA"):
+        for returns in ("right", "none", "wrong"):
+            for signed_by in ("right", "attacker"):
+                for jwk_header in (False, True):
+                    for api in ("jws", "jwt"):
+                        out.append({"op": "resolver", "alg": alg, "returns": returns, "signed_by": signed_by, "jwk_header": jwk_header, "api": api, "kind": "resolver"})
     # EdDSA over both RFC 8037 curves (signature sizes 64 and 114 octets), every serialization
     for crv in ("Ed25519", "Ed448"):
         for ser in ("compact", "flat", "general", "jwt"):
@@ -215,6 +222,9 @@ def impl(c):
     if c["op"] == "hmac":
         import hmac, hashlib
         return {"mac": hmac.new(bytes.fromhex(c["k"]), bytes.fromhex(c["m"]), getattr(hashlib, f"sha{c['bits']}")).hexdigest()}
+    if c["op"] == "resolver":
+        from props import c02
+        return c02.impl_extra(dict(c, op="callable"))
     if c["op"] == "keyset_rotation":
         jw = JsonWebToken(R.ALL_ALGS)
         def kobj(n, private, kid):
@@ -380,7 +390,7 @@ def verify_entries(c, pairs):
 
 
 def model_line(c):
-    if c["op"] in ("hskey", "jwt_reuse", "eddsa_curve", "keyset_rotation"):
+    if c["op"] in ("hskey", "jwt_reuse", "eddsa_curve", "keyset_rotation", "resolver"):
         return None
     if c["op"] == "hmac":
         return {"op": "hmac", "bits": c["bits"], "k": c["k"], "m": c["m"], "key": {"oct": ""}, "headers": {}}
@@ -426,6 +436,14 @@ def ref_key(c):
 def oracle(c, out):
     v = []
     if c["op"] == "hmac":
+        return v
+    if c["op"] == "resolver":
+        want = c["returns"] == "right" and c["signed_by"] == "right"
+        if out["accepted"] and not want:
+            v.append((f"{c['api']}: {c['alg']} token signed by the {c['signed_by']} key{' (carrying its own jwk header)' if c['jwk_header'] else ''} returned as verified although "
+                      f"the key resolver gave { {'none': 'no key', 'wrong': 'another key', 'right': 'the right key'}[c['returns']] }", {"alg": c["alg"], "op": "resolver", "kind": "accepted-unverified"}))
+        if not out["accepted"] and want:
+            v.append((f"{c['api']}: {c['alg']} token signed by the key the resolver returns was refused ({out.get('error')})", {"alg": c["alg"], "op": "resolver", "kind": "own-token-refused"}))
         return v
     if c["op"] == "keyset_rotation":
         want_after = {"replace-same-kid": ["refused", "two"], "remove": ["refused", "two"], "append-new": ["one", "two"]}[c["how"]]
@@ -510,6 +528,8 @@ def classify(c, out):
         return f"eddsa_curve/{c['crv']}/{c['ser']}"
     if c["op"] == "keyset_rotation":
         return f"keyset_rotation/{c['how']}"
+    if c["op"] == "resolver":
+        return "resolver/" + ("accepted" if out.get("accepted") else "refused")
     if c["op"] == "jwt_reuse":
         return f"jwt_reuse/{c['kform']}/{len(c['order'])}"
     if c["op"] == "hskey":
@@ -522,6 +542,8 @@ def nontrivial(c, out):
         return [c["crv"], c["ser"]]
     if c["op"] == "keyset_rotation":
         return [c["alg"], c["how"]]
+    if c["op"] == "resolver":
+        return [c[k] for k in ("alg", "returns", "signed_by", "jwk_header", "api")]
     if c["op"] == "jwt_reuse":
         return [c["alg"], c["kform"], c["order"]]
     if c["op"] == "hskey":
